@@ -445,7 +445,7 @@ func TestC26(t *testing.T) {
 		default: // crafted first packet with a chosen declared length
 			decl := rapid.SampledFrom([]uint32{0, 1, 4, 5, 12, 28, ssh.VerifWireMaxPacket - 4, ssh.VerifWireMaxPacket, ssh.VerifWireMaxPacket + 1, ssh.VerifWireMaxPacket + 12, ssh.VerifWireMaxPacket + 16, 1 << 24, 1 << 31, ^uint32(0) - 15, ^uint32(0) - 4, ^uint32(0)}).Draw(rt, "declared")
 			body := d.bytes(c26BodyLen(m, k, rapid.IntRange(12, 60).Draw(rt, "bodyLen")))
-			body[0] = rapid.SampledFrom([]byte{0, 3, 4, 7, 200, 255}).Draw(rt, "padlen")
+			body[0] = rapid.SampledFrom([]byte{0, 3, 4, 7, byte(len(body) - 2), byte(len(body) - 1), byte(len(body)), 200, 255}).Draw(rt, "padlen")
 			mutated = c26Crafted(m, k, start, decl, body)
 			tail = 300000
 			kind = "crafted-header"
@@ -559,8 +559,9 @@ func TestC26(t *testing.T) {
 		c26Check(c, t, err)
 		max := uint32(ssh.VerifWireMaxPacket)
 		for _, decl := range []uint32{0, 1, 2, 4, 5, 11, 12, 16, 27, 28, 32, max - 16, max - 4, max - 1, max, max + 1, max + 4, max + 8, max + 12, max + 16, max + 28, 1 << 20, 1 << 24, 1 << 31, ^uint32(0) - 31, ^uint32(0) - 16, ^uint32(0) - 15, ^uint32(0) - 4, ^uint32(0) - 3, ^uint32(0)} {
-			for _, padlen := range []byte{0, 3, 4, 27, 255} {
-				body := d.bytes(c26BodyLen(m, k, 28))
+			bl := c26BodyLen(m, k, 28)
+			for _, padlen := range []byte{0, 3, 4, byte(bl - 2), byte(bl - 1), byte(bl), 255} {
+				body := d.bytes(bl)
 				body[0] = padlen
 				mut := c26Crafted(m, k, 3, decl, body)
 				_, err := c26ReadOpt(one, mut, 300000, 0, true, decl > max)
@@ -574,8 +575,9 @@ func TestC26(t *testing.T) {
 		}
 		// (f) a crafted, correctly authenticated packet whose framing is
 		// consistent must come back as exactly its payload bytes or be refused
-		for _, padlen := range []int{0, 3, 4, 12, 27, 28, 40} {
-			body := d.bytes(c26BodyLen(m, k, 28))
+		bl := c26BodyLen(m, k, 28)
+		for _, padlen := range []int{0, 3, 4, 12, bl - 2, bl - 1, bl, bl + 1, 255} {
+			body := d.bytes(bl)
 			body[0] = byte(padlen)
 			mut := c26Crafted(m, k, 3, uint32(len(body)), body)
 			g := c26Go(m, k)
